@@ -309,7 +309,11 @@ func (g *G) BoolPred(d int, env *Env) Expr {
 		return relPath()
 	case 1: // = / != against a string literal
 		f := flat()
-		return bin(g.Pick("=", "!="), f, str(g.DirectedString(denot(f, env))))
+		lit := str(g.DirectedString(denot(f, env)))
+		if g.Chance(0.4) {
+			return bin(g.Pick("=", "!="), lit, f) // the literal on the left: existential over the node-set all the same
+		}
+		return bin(g.Pick("=", "!="), f, lit)
 	case 2: // numeric relational test
 		f := flat()
 		lit := xref.Num{Lex: g.DirectedNumber(denot(f, env))}
@@ -333,7 +337,19 @@ func (g *G) BoolPred(d int, env *Env) Expr {
 		}
 		return call(g.Pick("contains", "starts-with"), f, str(lit))
 	case 5:
-		return bin(g.Pick("=", "!="), call("local-name"), str(names[g.R.Intn(len(names))]))
+		// the name functions of the candidate itself (which may be an attribute, a text node ...) or of its first attribute / child
+		nm := names[g.R.Intn(len(names))]
+		if g.Chance(0.4) {
+			nm = AttrNames[g.R.Intn(len(AttrNames))]
+		}
+		fn := xref.Call{Name: g.Pick("local-name", "local-name", "name")}
+		switch g.R.Intn(5) {
+		case 0:
+			fn.Args = []Expr{Path{Steps: []*Step{{Axis: "attribute", Abbrev: "@", Test: xref.Test{Kind: "*"}}}}}
+		case 1:
+			fn.Args = []Expr{Path{Steps: []*Step{{Axis: "child", Abbrev: "child", Test: xref.Test{Kind: g.Pick("*", "node")}}}}}
+		}
+		return bin(g.Pick("=", "!="), fn, str(nm))
 	case 6:
 		return call("not", relPath())
 	case 7:
